@@ -58,8 +58,10 @@ def make_cfg(cls, bits, enc, dev):
         cfg["tb"] = 2.5
     if "integrand" in cfg:
         cfg.update(nb_steps=20)
-    if dev == "4d":
-        cfg["dims"] = "4d"
+    if dev in ("4d", "4d_do", "4d_bn"):
+        cfg["dims"] = dev
+    elif dev in ("net_do", "net_mlp", "net_bn"):
+        cfg["net"] = {"net_do": "resnet_do", "net_mlp": "mlp", "net_bn": "resnet_bn"}[dev]
     elif dev == "context":
         cfg["context"] = True
     elif dev == "uncond" and "uncond" in cfg:
@@ -113,11 +115,21 @@ def check_case(case):
     seen = []
     h = m.transform_net.register_forward_pre_hook(lambda mod, args: seen.append(args))
 
+    ncall = [0]
+
+    def _reseed():
+        # every call sees a different global RNG state: a layer that draws random numbers in evaluation mode (dropout left
+        # on) then no longer computes a function of the identity features and the context alone
+        ncall[0] += 1
+        torch.manual_seed(9000 + ncall[0])
+
     def fwd(t):
+        _reseed()
         with torch.no_grad():
             return m(t, ctx) if ctx is not None else m(t)
 
     def inv(t):
+        _reseed()
         with torch.no_grad():
             return m.inverse(t, ctx) if ctx is not None else m.inverse(t)
 
@@ -232,8 +244,12 @@ def gen_cases(cls, tier, seed):
     for bits in all_masks(3):
         for enc in ENC[1:]:
             yield {"cls": cls, "bits": bits, "enc": enc, "dev": "none", "pattern": "pat1", "seed": seed}
-        for dev in ("4d", "context", "uncond", "box"):
+        for dev in ("4d", "context", "uncond", "box", "4d_do", "4d_bn", "net_do", "net_mlp", "net_bn"):
             s = C.SUBJECTS[cls]
+            if dev.startswith("4d_") and dev not in s.axes.get("dims", []):
+                continue
+            if dev.startswith("net_") and {"net_do": "resnet_do", "net_mlp": "mlp", "net_bn": "resnet_bn"}[dev] not in s.axes.get("net", []):
+                continue
             if dev == "uncond" and "uncond" not in s.axes:
                 continue
             if dev == "box" and "tb" not in s.axes:
